@@ -799,7 +799,10 @@ private:
                 size_type segment_size = this->segment_size(last_allocated_segment);
                 end_idx = end_idx < segment_size ? end_idx : segment_size;
                 for (size_type i = idx; i < end_idx; ++i) {
-                    zero_unconstructed_elements(&this->internal_subscript(i), /*count =*/1);
+                    // Segments between the failed one and the eagerly allocated last one may be not allocated: nothing to zero there
+                    if (this->get_table()[this->segment_index_of(i)].load(std::memory_order_relaxed) > this->segment_allocation_failure_tag) {
+                        zero_unconstructed_elements(&this->internal_subscript(i), /*count =*/1);
+                    }
                 }
             });
             segment_table_allocator_traits::construct(base_type::get_allocator(), element_address, args...);
@@ -818,7 +821,10 @@ private:
                 size_type segment_size = this->segment_size(last_allocated_segment);
                 end_idx = end_idx < segment_size ? end_idx : segment_size;
                 for (size_type i = idx; i < end_idx; ++i) {
-                    zero_unconstructed_elements(&this->internal_subscript(i), /*count =*/1);
+                    // Segments between the failed one and the eagerly allocated last one may be not allocated: nothing to zero there
+                    if (this->get_table()[this->segment_index_of(i)].load(std::memory_order_relaxed) > this->segment_allocation_failure_tag) {
+                        zero_unconstructed_elements(&this->internal_subscript(i), /*count =*/1);
+                    }
                 }
             });
         }
